@@ -21,8 +21,8 @@ MissingNow(t, m) ==
 
 MBegin == /\ ncmd < MaxCmds /\ \E c \in Alphabet : Allowed(c) /\ Begin(c) /\ PCmd(c)
           /\ ncmd' = ncmd + 1
-MStep ==
-  /\ Step
+\* the monitor's part of a step of (D)
+Mon ==
   /\ ncmd' = ncmd
   /\ IF pc = "close"
      THEN PDone(IF out = "ok" THEN 0 ELSE 1, IF rf THEN 1 ELSE 0, tag', MissingNow(tag', tman'),
@@ -30,8 +30,22 @@ MStep ==
                 IF out = "ok" /\ cmd.op = "create" /\ cmd.bydig THEN [k |-> "idx", v |-> newv] ELSE [k |-> "none"])
      ELSE IF <<tman', tidx', tag', xt'>> # <<tman, tidx, tag, xt>> THEN PObs(tag', MissingNow(tag', tman'))
      ELSE UNCHANGED pvars
+\* one named action per action of (D), so that TLC's -coverage shows that each of them is taken
+MCheckType == CheckType /\ Mon
+MLoad == Load /\ Mon
+MParsePlats == ParsePlats /\ Mon
+MRefHead == RefHead /\ Mon
+MCopyBegin == CopyBegin /\ Mon
+MCopyStep == CopyStep /\ Mon
+MCopyEnd == CopyEnd /\ Mon
+MHeads == Heads /\ Mon
+MMerge == Merge /\ Mon
+MPut == Put /\ Mon
+MClose == Close /\ Mon
+MRefuse == pc \in {"copying", "put"} /\ Refuse /\ Mon
 MInitP == Init /\ ncmd = 0 /\ pcur = tag /\ phave = tman /\ pcmd = NoCmd /\ pwant = None /\ pnew = FALSE /\ bad = ""
-MNext == MBegin \/ MStep
+MNext == MBegin \/ MCheckType \/ MLoad \/ MParsePlats \/ MRefHead \/ MCopyBegin \/ MCopyStep \/ MCopyEnd \/ MHeads
+           \/ MMerge \/ MPut \/ MClose \/ MRefuse
 MSpec == MInitP /\ [][MNext]_mvars
 
 Holds == bad = ""
